@@ -128,9 +128,41 @@ pub fn pairs(sc: &Scenario) -> Vec<(usize, Dir, Side, Side)> {
     v
 }
 
-pub fn check_fidelity(sc: &Scenario, log: &[LogRec], mon: &WireMon, quiescent: bool, expect_complete: bool) -> Verdicts {
+/// which messages must have arrived completely at quiescence
+#[derive(Clone, Copy, PartialEq, Debug)]
+pub enum Expect {
+    /// every message of the scenario
+    All,
+    /// what the scenario's own script implies on a fault-free transport: both messages of every stream that nobody
+    /// cancels (a neighbour's reset does not concern it), and the response of an early-responding server
+    PerSpec,
+    /// nothing (endings, faults)
+    Nothing,
+}
+
+impl From<bool> for Expect {
+    fn from(b: bool) -> Expect {
+        if b {
+            Expect::All
+        } else {
+            Expect::Nothing
+        }
+    }
+}
+
+pub fn check_fidelity(sc: &Scenario, log: &[LogRec], mon: &WireMon, quiescent: bool, expect: impl Into<Expect>) -> Verdicts {
+    let expect: Expect = expect.into();
     let mut out = Verdicts { vios: vec![], complete_streams: 0, incomplete_streams: 0 };
     for (k, dir, from, to) in pairs(sc) {
+        let expect_complete = match expect {
+            Expect::All => true,
+            Expect::Nothing => false,
+            Expect::PerSpec => match sc.streams[k].cancel {
+                Cancel::None => true,
+                Cancel::ServerEarlyResponse => dir == Dir::Resp,
+                _ => false,
+            },
+        };
         let s = sequence(log, from, k, &dir, true);
         let r = sequence(log, to, k, &dir, false);
         let tagd = format!("{:?}", dir);
@@ -321,8 +353,7 @@ impl<'a> Harness for T1Harness<'a> {
 
 fn judge_c01(h: &T1Harness, t: &mut T1, end: RunEnd) -> Vec<(String, String, String)> {
     let log = t.log.snapshot();
-    let expect_complete = h.sc.streams.iter().all(|s| s.cancel == Cancel::None);
-    let mut v = check_fidelity(h.sc, &log, &t.mon, end == RunEnd::Quiescent, expect_complete).vios;
+    let mut v = check_fidelity(h.sc, &log, &t.mon, end == RunEnd::Quiescent, Expect::PerSpec).vios;
     if end == RunEnd::Horizon {
         v.push(("C01.no-quiescence".into(), "horizon".into(), format!("execution did not quiesce within {} steps", horizon_for(h.sc))));
     }
